@@ -231,6 +231,12 @@ def make_cases(ctx):
                     site="finished", sc=sc, role=role, cls=what)
     for what in ("honest", "other_hash", "same_hash", "both"):
         yield "stolen-ticket-%s" % what, dict(site="stolen_ticket", cls=what)
+    for ee, dc in (("ecdsa256", "ed25519"), ("ecdsa256", "ecdsa384"),
+                   ("rsa", "ecdsa256"), ("ecdsa384", "rsa")):
+        for what in ("honest", "dc_sig_flip", "dc_other_key", "dc_valid_time",
+                     "cv_by_ee_key", "dc_signed_by_other"):
+            yield "dc-%s-%s-%s" % (ee, dc, what), dict(
+                site="dc", cls=what, ee=ee, dc=dc)
     for what in ("honest", "wrong_fp", "no_chain"):
         for ver in ((3, 3), (3, 4)):
             yield "checker-%s-%d" % (what, ver[1]), dict(
@@ -698,6 +704,114 @@ def run_stolen_ticket(ctx, cid, P):
         var, outcome(ts2)[0], has_id, bool(p2.s.resumed)))
 
 
+def run_dc(ctx, cid, P):
+    """delegated credentials (RFC 9345): the end-entity key signs a
+    credential naming another key, and that key signs CertificateVerify"""
+    from tlslite.x509 import Credential, DelegatedCredential
+    from tlslite.utils.asn1parser import ASN1Parser
+    cls, eek, dck = P["cls"], P["ee"], P["dc"]
+
+    def spki_of(cert):
+        return bytes(ASN1Parser(cert.bytes).getChild(0).getChildBytes(6))
+    SCH = {"ecdsa256": ((4, 3), "sha256"), "ecdsa384": ((5, 3), "sha384"),
+           "ed25519": ((8, 7), "intrinsic"), "rsa": ((8, 4), "sha256")}
+    ee_chain, ee_key = creds.server(eek)
+    dc_chain, dc_key = creds.server(dck)
+    ee_alg, ee_hash = SCH[eek]
+    dc_alg = SCH[dck][0]
+
+    def sign_ee(key, data, alg, hname):
+        if alg[0] == 8 and alg[1] in (7, 8):
+            return key.hashAndSign(bytearray(data), None, "intrinsic", None)
+        if alg == (8, 4):
+            return key.hashAndSign(bytearray(data), "pss", hname, 32)
+        return key.hashAndSign(bytearray(data), None, hname, None)
+
+    def mk(spki, valid=3600, alg=dc_alg, sigalg=ee_alg, signer=ee_key,
+           signed_cred=None):
+        cb = Credential.marshal(valid, alg, bytearray(spki))
+        ctxb = DelegatedCredential.compute_certificate_dc_sig_context(
+            ee_chain.x509List[0].bytes, signed_cred or cb, sigalg)
+        sig = sign_ee(signer, ctxb, sigalg, SCH[eek][1])
+        cred = Credential(valid_time=valid, dc_cert_verify_algorithm=alg,
+                          subject_public_key_info=bytearray(spki), bytes=cb)
+        return DelegatedCredential(cred=cred, algorithm=sigalg,
+                                   signature=sig)
+    spki = spki_of(dc_chain.x509List[0])
+    honest_cb = Credential.marshal(3600, dc_alg, bytearray(spki))
+    use_key = dc_key
+    if cls == "honest":
+        dc = mk(spki)
+    elif cls == "dc_sig_flip":
+        dc = mk(spki)
+        b = bytearray(dc.signature)
+        b[ctx.rng.randrange(len(b))] ^= 1 << ctx.rng.randrange(8)
+        dc.signature = b
+    elif cls == "dc_other_key":
+        # the attacker's own key in the credential, the delegation
+        # signature copied from the honest credential
+        if dck not in ("ed25519", "ecdsa256", "rsa"):
+            ctx.count("dc_class_not_applicable")
+            return
+        oth_chain, oth_key = creds.client(dck) if dck == "ed25519" else \
+            creds.server({"ecdsa256": "ecdsa_nonca",
+                          "rsa": "rsa_nonca"}[dck])
+        dc = mk(spki_of(oth_chain.x509List[0]), signed_cred=honest_cb)
+        use_key = oth_key
+    elif cls == "dc_valid_time":
+        dc = mk(spki, valid=7 * 86400 - 1, signed_cred=honest_cb)
+    elif cls == "cv_by_ee_key":
+        dc = mk(spki)
+        use_key = ee_key
+    elif cls == "dc_signed_by_other":
+        if eek not in ("ecdsa256", "rsa"):
+            ctx.count("dc_class_not_applicable")
+            return
+        oth = creds.server({"ecdsa256": "ecdsa_nonca",
+                            "rsa": "rsa_nonca"}[eek])
+        dc = mk(spki, signer=oth[1])
+    else:
+        return
+    cs = ver_settings((3, 4), dc_sig_algs=[dc_alg])
+    ss = ver_settings((3, 4))
+    fl = Flavor("cert", skey=eek, cset=cs, sset=ss)
+    fl.server_kw = dict(dc_key=KeyProxy(use_key, "honest"), del_cred=dc)
+    p = Pair()
+    tc, ts = p.handshake(fl)
+    ctx.ev()
+    ctx.count("proof_runs")
+    sess = p.c.session
+    ident = sess.serverCertChain if sess is not None else None
+    used = getattr(sess, "delegated_credential", None) if sess else None
+    completed = tc.status == "done" and ident is not None
+    key = {"site": "delegated_credential", "keytype": "%s/%s" % (eek, dck),
+           "class": cls, "ver": "TLS1.3"}
+    W = {"case": cid, "outcome": [outcome(tc), outcome(ts)]}
+    if cls == "honest":
+        if not completed or used is None:
+            ctx.violation(dict(key, clause="honest_rejected"), W,
+                          "honest delegated credential not accepted: %r / %r"
+                          % (tc.exc, ts.exc))
+        else:
+            ctx.count("honest_accepted")
+    elif completed:
+        ctx.violation(dict(key, clause="identity_without_proof"), W,
+                      "client completed with the server chain although the "
+                      "delegated credential was %s" % cls)
+    else:
+        ctx.count("rejected")
+        cl = mon.classify_exc(tc.exc) if tc.exc else tc.status
+        if cl.startswith("undocumented"):
+            ctx.violation(dict(key, clause="undocumented_exception",
+                               exc=type(tc.exc).__name__, frame=tc.frame()),
+                          W, repr(tc.exc))
+        elif cl.startswith("tls:"):
+            ctx.violation(dict(key, clause="no_alert_before_close",
+                               exc=type(tc.exc).__name__, frame=tc.frame()),
+                          W, repr(tc.exc))
+    ctx.cell("cell", "dc|%s/%s|%s|%s" % (eek, dck, cls, outcome(tc)[0]))
+
+
 def run_finished(ctx, cid, P):
     sc = flavours.BY_NAME[P["sc"]]
     role, cls = P["role"], P["cls"]
@@ -809,6 +923,8 @@ def run(ctx):
             run_checker(ctx, cid, P)
         elif s == "stolen_ticket":
             run_stolen_ticket(ctx, cid, P)
+        elif s == "dc":
+            run_dc(ctx, cid, P)
         else:
             run_proof(ctx, cid, P)
 
